@@ -40,16 +40,29 @@ class PureEval:
             raise AnalysisBroken("predicate %s not found in %s" % (name, self.files))
         f = cands[0]
         rets = []
+        temps = {}
         for b, i, x, line in f.cfg.all_elems():
             if isinstance(x, dict) and x.get("k") == "ret":
                 rets.append(f.cfg.resolve(x["e"]))
-            elif isinstance(x, dict) and x.get("k") == "decl":
-                raise AnalysisBroken("predicate %s declares locals: not a pure single-return predicate" % name)
+                continue
             for l, kind, n in writes(x):
+                # named intermediate results (`const bool r = lt(a, b); return r;`) are fine: one initialised declaration each
+                if kind == "decl" and n.get("init") is not None and n["n"] not in temps:
+                    temps[n["n"]] = f.cfg.resolve(n["init"])
+                    continue
                 raise AnalysisBroken("predicate %s has side effects (%s): not pure" % (name, show(x)))
         if len(rets) != 1:
             raise AnalysisBroken("predicate %s has %d return statements" % (name, len(rets)))
-        self.bodies[name] = (f, rets[0])
+
+        def subst(n, d=0):
+            if isinstance(n, dict):
+                if n.get("k") == "ref" and n.get("dk") == "local" and n.get("n") in temps and d < 8:
+                    return subst(temps[n["n"]], d + 1)
+                return {k: subst(v, d) for k, v in n.items()}
+            if isinstance(n, list):
+                return [subst(v, d) for v in n]
+            return n
+        self.bodies[name] = (f, subst(rets[0]) if temps else rets[0])
         return self.bodies[name]
 
     def ev(self, x, env, depth=0):
